@@ -160,6 +160,7 @@ func resolveSel(sel string, v Val) (Val, bool) {
 	}
 	cur := v
 	for _, f := range strings.Split(strings.TrimPrefix(sel, "."), ".") {
+		f = strings.TrimSuffix(f, "?")
 		n, ok := cur.get(f)
 		if !ok {
 			return Val{}, false
@@ -222,7 +223,29 @@ func cmpNum(op string, a, b Val) bool {
 // statement false (the generator only puts possibly-absent paths in top-level
 // comparison statements, so that this does not lean on the fine print of
 // missing data under not/or).
+// missingOptional: following the path segment by segment, the first segment
+// that does not resolve is an optional one ("x?").
+func missingOptional(sel string, v Val) bool {
+	if sel == "." || sel == "" {
+		return false
+	}
+	cur := v
+	for _, f := range strings.Split(strings.TrimPrefix(sel, "."), ".") {
+		n, ok := cur.get(strings.TrimSuffix(f, "?"))
+		if !ok {
+			return strings.HasSuffix(f, "?")
+		}
+		cur = n
+	}
+	return false
+}
+
 func evalStmt(s Stmt, args Val) bool {
+	// a statement over a missing optional path (".x?") passes; the generator places such
+	// statements at top level only (underneath not/or the verdict is not definite)
+	if missingOptional(s.Sel, args) {
+		return true
+	}
 	switch s.Op {
 	case "==":
 		v, ok := resolveSel(s.Sel, args)
@@ -275,6 +298,8 @@ func evalStmt(s Stmt, args Val) bool {
 // verdict on the policy clause for such statements; this situation arises only
 // through argument hooks that remove an argument and through minimiser
 // candidates, never from the generator's own statements.
+func optionalSel(sel string) bool { return strings.HasSuffix(sel, "?") }
+
 func definiteStmt(s Stmt, args Val, underNotOr bool) bool {
 	switch s.Op {
 	case "==", "<", "<=", ">", ">=", "like":
